@@ -7,7 +7,14 @@
         sched: comma separated  R = next sub-step of reset()   F = the timer fires   T = next critical section of
         the timer thread   S = step() of the restarted machine dequeues.  An action that is not enabled is skipped.
         answer: class=clean|stale|blocked|notreturned ext=<n> int=<n> pend=<n> processed=<n> raced=<0|1>
-                at_return=<clean|stale|->      (the class at the first moment reset() had returned) *)
+                at_return=<clean|stale|->      (the class at the first moment reset() had returned)
+   dgen
+        the regenerated facts about ~InterpreterImpl():  ok=<0|1> locks=<0|1> drops_al=<0|1> joins=<0|1> members=<A,T,M,I,E,Q,P..>
+        safe=<destroy_safeb for alref 1> safe_by_order=<destroy_safe_by_orderb for alref 1>
+   dr <locks> <drops_al> <joins>|gen <members|gen> <kind d|e> <alref 0|1> <sched>
+        destruction of an interpreter with one pending delayed send (uuid 7), timer thread idle at the start.
+        sched: comma separated  D = next sub-step of the destructor   F = the timer fires   T = next step of the callback.
+        answer: class=clean|after-destruction|blocked|notfinished fault=<0|1> after_done=<0|1> joined=<0|1> *)
 open Vmodel
 
 (*COMMON*)
@@ -25,8 +32,38 @@ let act_of = function
 
 let class_str = function OClean -> "clean" | OStale -> "stale" | OBlocked -> "blocked" | ONotReturned -> "notreturned"
 
+let member_of = function
+  | "A" -> MAl | "T" -> MTargets | "M" -> MDelayMutex | "I" -> MInternalQueue | "E" -> MExternalQueue
+  | "Q" -> MDelayQueue | "P" -> MIoProcs | s -> failwith ("unknown member " ^ s)
+let member_str = function
+  | MAl -> "A" | MTargets -> "T" | MDelayMutex -> "M" | MInternalQueue -> "I" | MExternalQueue -> "E"
+  | MDelayQueue -> "Q" | MIoProcs -> "P"
+let members_of s = if s = "gen" then destroy_members else if s = "-" then [] else List.map member_of (String.split_on_char ',' s)
+let dact_of = function
+  | "D" -> DaDestroy | "T" -> DaTimer | "F" -> DaFire (n_of_int 7) | s -> failwith ("unknown action " ^ s)
+let dclass_str = function DClean -> "clean" | DAfterDestruction -> "after-destruction" | DBlocked -> "blocked" | DNotFinished -> "notfinished"
+
 let handle line =
   match split line with
+  | ["dgen"] ->
+      Printf.sprintf "ok=%s locks=%s drops_al=%s joins=%s members=%s safe=%s safe_by_order=%s" (b2s destroy_source_ok)
+        (b2s destroy_locks_targets) (b2s destroy_drops_al) (b2s destroy_joins_in_body)
+        (if destroy_members = [] then "-" else String.concat "," (List.map member_str destroy_members))
+        (b2s (destroy_safeb dv_gen true)) (b2s (destroy_safe_by_orderb dv_gen true destroy_members))
+  | "dr" :: rest ->
+      let (v, rest) = (match rest with
+        | "gen" :: r -> (dv_gen, r)
+        | l :: d :: j :: r -> ({ dv_locks_targets = (l = "1"); dv_drops_al = (d = "1"); dv_joins_in_body = (j = "1") }, r)
+        | _ -> failwith "usage") in
+      (match rest with
+       | [members; kind; alref; sched] ->
+           let k = (match kind with "d" -> KDeliver | "e" -> KError | _ -> failwith "kind") in
+           let s0 = d_at_call (destroy_prog v (members_of members)) [n_of_int 7] [(n_of_int 7, k)] CbIdle (alref = "1") in
+           let acts = if sched = "-" then [] else List.map dact_of (String.split_on_char ',' sched) in
+           let s = d_run s0 acts in
+           Printf.sprintf "class=%s fault=%s after_done=%s joined=%s" (dclass_str (d_classify s)) (b2s s.d_fault)
+             (b2s s.d_after_done) (b2s s.d_joined)
+       | _ -> "ERR usage")
   | ["gen"] ->
       Printf.sprintf "ok=%s order=%s locks=%s delay_first=%s" (b2s reset_order_source_ok) (order_str reset_order)
         (b2s reset_locks_targets) (b2s (delay_firstb reset_order))
